@@ -107,6 +107,13 @@ BareStandard(m) ==
   \/ m.f = "c" /\ m.xs[1].f \in {"pk_k", "pk_h"}
   \/ m.f \in {"multi", "sortedmulti"} /\ Len(m.ks) <= 3
 
+\* standardness limits of the output types (what a node relays): a P2SH redeem script is one push of
+\* at most 520 bytes and its scriptSig holds at most 1650 bytes; a P2WSH witness script has at most
+\* 3600 bytes and is run on at most 100 witness items
+MaxStdScriptBytes(ctx) == IF ctx = "legacy" THEN 520 ELSE IF ctx = "segwitv0" THEN 3600 ELSE IF ctx = "bare" THEN 10000 ELSE 4000000
+MaxStdScriptSigBytes == 1650
+MaxStdWitnessItems == 100
+
 ObeysContext(m, t, ctx) == \A sw \in CtxOff(ctx) : ~Defect(sw, m, t, ctx)
 ObeysSane(m, t, ctx)    == \A sw \in SaneOff(ctx) : ~Defect(sw, m, t, ctx)
 =============================================================================
